@@ -122,7 +122,14 @@ class Tracer:
         return w
 
     def patch(self, owner, name, kind, labeller=lambda *a, **k: ""):
-        orig = owner.__dict__[name] if isinstance(owner, type) else getattr(owner, name)
+        try:
+            orig = owner.__dict__[name] if isinstance(owner, type) else getattr(owner, name)
+        except (KeyError, AttributeError):
+            # the private step this hook observes is not there under that name (renamed / merged by a rewrite): no events
+            # of this kind are seen, `without_unobserved` takes the kind out of the model's line; faults are injected at
+            # the events that exist
+            self.missing_hooks = getattr(self, "missing_hooks", []) + [f"{getattr(owner, '__name__', owner)}.{name}"]
+            return
         is_static = isinstance(orig, staticmethod)
         fn = orig.__func__ if is_static else orig
         w = self.wrap_fn(fn, kind, labeller)
@@ -838,6 +845,7 @@ def run(ctx):
         else:
             R.traces += 1
     R.extra["model_steps_without_an_observed_event"] = sum(unobserved.values())
+    R.extra["hooks_not_found_on_this_tree"] = getattr(tracer, "missing_hooks", [])
     R.extra["event_traces"] = {"compared": len(trace_cmds), "same_order_classes_as_model": order_same,
                                "example": trace_expect[0] if trace_expect else None}
     fixed = [c_out[2 * i] for i in range(len(pend))]
